@@ -50,6 +50,17 @@ pub fn hist_cfg(id: &str, thorough: bool) -> Option<HistCfg> {
             },
             rule: "history over 2-4 replicas followed by a generated delivery plan and a complete exchange; non-trivial = block graph has a merge or concurrent branches, some commit carries >=2 change records, and some delivery was a raw (partial / permuted) file copy",
         },
+        "C02" => HistCfg {
+            id: "C02",
+            on: vec!["C02"],
+            mix: Mix { filecopy: 5, refresh: 3, reload: 2, meldrefresh: 4, meld: 2, commit: 7, unstage: 2, rich: true, ..base },
+            max_len: len(60, 120),
+            n_min: 2,
+            n_max: 3,
+            with_fin: true,
+            nontrivial: |k| c(k, "states_with_held_back_blocks") > 0 && c(k, "c02_refresh_checked") > 1,
+            rule: "multi-replica history with many raw (partial, permuted) file copies, melds without refresh, failed commits and unstaged edits; after every refresh / reload of a long-lived replica: every causally complete block is applied, the applied set equals the reference causal closure of its storage (hook), and the replica equals a freshly opened one; non-trivial = some refresh happened while blocks were held back",
+        },
         "C03" => HistCfg {
             id: "C03",
             on: vec!["C03"],
